@@ -881,6 +881,71 @@ def _predicates(model, rep):
            f"unchanged and predicates resolved by {finder}", fn.lineno, path)
 
 
+def _index_forms(model, rep):
+    """The three selectors normalize_nodes / normalize_facets /
+    normalize_elements translate every admissible way of naming a subset
+    into an index array; the forms must agree - and the siblings with each
+    other.  Decided per selector: (a) a single index is accepted as Python
+    *and* NumPy integer (every index the library hands out - an element of
+    boundary_facets(), np.argmax(...) - is a NumPy integer; a collection of
+    them recurses into the same test); (b) the collection branch copes with
+    the empty collection (np.concatenate of an empty list raises)."""
+    R4 = "C07-R4"
+    mcls = model.cls("skfem.mesh.mesh", "Mesh")
+    for name in ("normalize_nodes", "normalize_facets",
+                 "normalize_elements"):
+        fn = mcls.methods.get(name)
+        if fn is None:
+            raise AnalysisError(f"Mesh.{name} not found")
+        par = fn.params()[1]
+        kinds = []          # the type expressions of isinstance(par, ...)
+        for n in walk_no_nested(fn.node):
+            if isinstance(n, ast.Call) and src(n.func) == "isinstance" and \
+                    len(n.args) == 2 and src(n.args[0]) == par:
+                t = n.args[1]
+                kinds.append({src(x) for x in (
+                    t.elts if isinstance(t, ast.Tuple) else [t])})
+        ints = [k for k in kinds if "int" in k or "np.integer" in k
+                or "numbers.Integral" in k or "Integral" in k]
+        cons = f"Mesh.{name}:single-index"
+        if not ints:
+            rep.fail(R4, fn.path, f"Mesh.{name}", cons,
+                     f"no branch for a single index: '{par}' given as an "
+                     f"integer (or a list of integers, which recurses "
+                     f"element by element) raises NotImplementedError, "
+                     f"while the sibling selectors accept it", fn.lineno)
+        elif not any(k & {"np.integer", "numbers.Integral", "Integral"}
+                     for k in ints):
+            rep.fail(R4, fn.path, f"Mesh.{name}", cons,
+                     f"'isinstance({par}, int)' accepts Python integers "
+                     f"only: an index taken from the library's own arrays "
+                     f"(boundary_facets()[0], np.argmax(eta), the items of "
+                     f"list(ix)) is a NumPy integer and raises "
+                     f"NotImplementedError", fn.lineno)
+        else:
+            rep.ok(R4, cons, "a single index is accepted as Python and as "
+                   "NumPy integer")
+        cats = [c for c in walk_no_nested(fn.node) if isinstance(c, ast.Call)
+                and src(c.func) in ("np.concatenate", "np.hstack")
+                and c.args]
+        cons = f"Mesh.{name}:empty-collection"
+        if not cats:
+            raise AnalysisError(f"Mesh.{name}: collection branch not found")
+        bare = [c for c in cats if isinstance(
+            c.args[0], (ast.ListComp, ast.GeneratorExp))]
+        guarded = any(isinstance(n, ast.If) and (
+            f"len({par})" in src(n.test) or src(n.test) == f"not {par}")
+            for n in walk_no_nested(fn.node))
+        if bare and not guarded:
+            rep.fail(R4, fn.path, f"Mesh.{name}", cons,
+                     f"'{src(bare[0])[:60]}' concatenates one array per "
+                     f"item: the empty collection ([], set(), the empty "
+                     f"selection) raises ValueError instead of selecting "
+                     f"nothing", bare[0].lineno)
+        else:
+            rep.ok(R4, cons, "the empty collection selects nothing")
+
+
 def run(model: Model, rep, tier: str) -> None:
     rep.rule("C07-R1", "index sets derive from a table of their own kind / "
              "the argument; kinds without DOFs and interior DOFs of facet "
@@ -894,7 +959,8 @@ def run(model: Model, rep, tier: str) -> None:
     staged(lambda: _queries(model, rep), lambda: _names_to_rows(model, rep),
            lambda: _view_methods(model, rep), lambda: _dispatch(model, rep),
            lambda: _predicates(model, rep),
-           lambda: _conditional_attributes(model, rep))
+           lambda: _conditional_attributes(model, rep),
+           lambda: _index_forms(model, rep))
     from ..dgspace import report as _dg_report
     _dg_report(model, rep, "C07-R4", lambda n: n.endswith("_satisfying"),
                "the predicate is evaluated at garbage midpoints and the "
@@ -910,6 +976,15 @@ _D = "skfem/assembly/dofs.py"
 _AB = "skfem/assembly/basis/abstract_basis.py"
 _M = "skfem/mesh/mesh.py"
 MUTANTS = [
+    ("facet selector accepts Python integers only",
+     (_M, "        if isinstance(facets, (int, np.integer)):",
+      "        if isinstance(facets, int):"), "C07-R4"),
+    ("node selector loses its single-index branch",
+     (_M, "        if isinstance(nodes, (int, np.integer)):\n            "
+      "return np.array([nodes])\n", ""), "C07-R4"),
+    ("element selector concatenates the empty collection",
+     (_M, "            if len(elements) == 0:\n                return "
+      "np.array([], dtype=np.int32)\n", ""), "C07-R4"),
     ("DOF query reads the optional location table directly",
      ("skfem/assembly/basis/abstract_basis.py",
       "        doflocs = getattr(self, 'doflocs', None)\n",
@@ -1034,6 +1109,14 @@ MUTANTS = [
       "dtype=np.int32)"), "C07-R4"),
 ]
 TWINS = [
+    ("facet selector tests the numeric ABC",
+     (_M, "        if isinstance(facets, (int, np.integer)):",
+      "        if isinstance(facets, (int, np.integer, np.int64)):")),
+    ("element selector tests emptiness by truth value",
+     (_M, "            if len(elements) == 0:\n                return "
+      "np.array([], dtype=np.int32)\n",
+      "            if not elements:\n                return "
+      "np.array([], dtype=np.int32)\n")),
     ("get_vertex_dofs passes its fields by keyword",
      (_D, "        return DofsView(\n            self,\n            nodes,\n"
       "            np.empty((0,), dtype=np.int32),\n"
